@@ -5,6 +5,11 @@ from .core import OutOfReach
 
 
 class SBinStr:
+    def __getattr__(self, k):
+        from .core import ModelGap
+
+        raise ModelGap("'SBinStr' proxy has no model of attribute '%s'" % k)
+
     def __init__(self, items):
         self.c = list(items)  # each: a one-char str, or an SBit standing for chr(ord('0')+bit)
 
@@ -74,6 +79,12 @@ class SBinStr:
 class LazyBin:
     """bin(v) of a symbolic int, not yet materialised: population count needs no knowledge of the length; every other
     use forks on the position of the most significant set bit (materialise)"""
+
+    def __getattr__(self, k):
+        from .core import ModelGap
+
+        raise ModelGap("'LazyBin' proxy has no model of attribute '%s'" % k)
+
 
     def __init__(self, v):
         self._v = v
